@@ -353,6 +353,19 @@ class InstT(T):
         return {"t": "opaque", "tag": self.cls}
 
 
+class SameAs(T):
+    """the parameter is THE SAME OBJECT as another parameter (aliasing case)"""
+
+    def __init__(self, other):
+        self.other = other
+
+    def family(self, name, ctx, psorts):
+        raise Unsupported("SameAs is resolved by the verifier")
+
+    def decode(self, model, value):
+        return {"t": "alias", "of": self.other}
+
+
 class FnT(T):
     """Uninterpreted callable parameter."""
 
